@@ -18,3 +18,68 @@ Theorem c18_old_input_refuted : exists dest,
   until_quote ((fun x => x) dest ++ input_suffix) <> dest.
 Proof. exact old_input_refuted. Qed.
 Print Assumptions c18_old_input_refuted.
+
+(* ---- responses as (declared type, body segments Trusted | Escaped | Raw) ---- *)
+
+(* whatever fields a Raw-free body carries, the sequence of its markup bytes (the quotes and angle brackets any
+   HTML tokenizer keys on) is that of the trusted template text alone *)
+Theorem c18_escaped_fields_inert : forall l, raw_free l = true ->
+  skeleton (render l) = skeleton (render (strip l)).
+Proof. exact raw_free_skeleton. Qed.
+Print Assumptions c18_escaped_fields_inert.
+
+(* every failure response of keymasterd that a browser renders as a document (declared text/html, or sniffed)
+   contains no Raw request-controlled segment: the detail line is never a document, for all details, status
+   texts and codes; the 401 page for browsers is a template page *)
+Theorem c18_document_no_raw : forall admin_port accept_html code status msg tpl tail,
+  let r := failure_response admin_port accept_html code status msg (page tpl tail) in
+  rendered_as_document r = true ->
+  raw_free (r_body r) = true /\
+  skeleton (render (r_body r)) = skeleton (render (strip (r_body r))).
+Proof. exact document_fields_inert. Qed.
+Print Assumptions c18_document_no_raw.
+
+Theorem c18_page_fields_inert : forall ct tpl tail,
+  skeleton (render (r_body (mkResp ct (page tpl tail)))) =
+  skeleton (render (strip (r_body (mkResp ct (page tpl tail))))).
+Proof. exact page_fields_inert. Qed.
+Print Assumptions c18_page_fields_inert.
+
+(* not vacuous: declare the failure line text/html for browsers and the detail becomes markup *)
+Theorem c18_typed_failure_refuted : exists status msg,
+  let r := failure_response_typed false true 400 status msg (page [] []) in
+  rendered_as_document r = true /\
+  skeleton (render (r_body r)) <> skeleton (render (strip (r_body r))).
+Proof. exact typed_failure_refuted. Qed.
+Print Assumptions c18_typed_failure_refuted.
+
+Theorem c18_raw_field_refuted : exists s,
+  skeleton (render [Trusted [60;98;62]; Raw s; Trusted [60;47;98;62]]) <>
+  skeleton (render (strip [Trusted [60;98;62]; Raw s; Trusted [60;47;98;62]])).
+Proof. exact raw_field_refuted. Qed.
+Print Assumptions c18_raw_field_refuted.
+
+(* ---- html/template's field escapers by context (text / quoted attribute / unquoted attribute / quoted URL
+   attribute behind an arbitrary URL stage) ---- *)
+Theorem c18_field_contexts_safe : forall c s,
+  attr_safe (render_field c s) = true /\
+  (c = CtxAttrUnquoted -> unq_safe (render_field c s) = true).
+Proof. exact field_contexts_safe. Qed.
+Print Assumptions c18_field_contexts_safe.
+
+(* the value an HTML tokenizer reads from a double-quoted attribute is exactly the escaped field *)
+Theorem c18_quoted_value : forall s rest, until_quote (tmpl_escape s ++ 34 :: rest) = tmpl_escape s.
+Proof. exact quoted_value_is_field. Qed.
+Print Assumptions c18_quoted_value.
+
+(* ... and from an unquoted attribute (VALUE={{.DefaultUsername}} of the login form): the whole escaped field,
+   never empty, whatever blank or '>' follows *)
+Theorem c18_unquoted_value : forall s c rest, unq_end c = true ->
+  until_unq_end (nospace_escape s ++ c :: rest) = nospace_escape s /\ nospace_escape s <> [].
+Proof. exact unquoted_value_is_field. Qed.
+Print Assumptions c18_unquoted_value.
+
+(* not vacuous: the quoted-attribute escaper in an unquoted position lets a blank end the value *)
+Example c18_quoted_escaper_unquoted_refuted :
+  unq_safe (tmpl_escape [120; 32; 111; 110; 120; 61; 49]) = false.
+Proof. reflexivity. Qed.
